@@ -339,6 +339,9 @@ def run(v):
     scns_res = conn.check(v, 'C13', families.FAMILIES['C13'], also=('C08.stream_parity', 'C17.ids_restart_at_first_id', 'C12.probe_served',
                                                           'C01.all_delivered_at_quiescence', 'C01.deliver_is_next', 'C01.correlation'))
     dups = sum(1 for sc in scns_res[0] for e in sc['events'] if e['ev'] == 'inject' and e['kind'] == 'duplicate_request')
+    # (D) Dispatch.tla: every request type aimed at every kind of live stream, in either role, on both endpoints (DuplicateRejected)
+    from . import dispatch
+    dispatch.check(v, 'C13', only_duplicates=True)
     v.coverage['duplicate_requests_injected'] = dups
     if dups == 0:
         raise common.Machinery('no request frame re-using an active id was injected in this run: the connection-level part of C13 checked nothing')
